@@ -212,7 +212,8 @@ def check_urlize(text, out, trim, rel, target, nofollow, extra):
         for c in cands:
             e = my_escape(c)
             shown.add(e)  # extra-scheme and mailto links are shown untrimmed; not an injection concern either way
-            shown.add(e if trim is None or len(e) <= trim else e[:trim] + "...")
+            # "Shorten displayed URL values to this length": the limit counts characters of the URL, not of its escaped form
+            shown.add(e if trim is None or len(c) <= trim else my_escape(c[:trim]) + "...")
             if c.startswith("mailto:"):
                 shown.add(my_escape(c[len("mailto:"):]))
         if inner not in shown:
